@@ -27,18 +27,24 @@ PROPS = {
         "design": "DESIGN.md §3 C02",
     },
     "C03": {
+        "facts": True,
+        "lean_files": ["C03", "C03Code"],
         "engines": [DECODE],
-        "text": "Lean 4 theorem C03_decode_eq_reference: every stream the strict reference decoder model accepts (WellTyped) decodes in the model of the generated unmarshal closure to exactly the reference value, fresh or with Merge. Both decoder models are tied to the real generated code / real dynamicpb on every run with a record-level stream generator (duplicates, packed/unpacked, partial map entries, unknown records).",
+        "text": "Lean 4 theorem C03_decode_eq_reference: every stream the strict reference decoder model accepts (WellTyped) decodes in the model of the generated unmarshal closure to exactly the reference value, fresh or with Merge; C03_concat_reference / C03_concat_eq_merge: decoding a concatenation of two accepted streams equals decoding the first and merge-decoding the second into the result (reference model for all byte strings; generated-decoder model for well-typed streams). Both decoder models are tied to the real generated code / real dynamicpb on every run with a record-level stream generator (duplicates, packed/unpacked, partial map entries, unknown records).",
         "note": "trusted: Lean kernel; correspondence sampling; target message non-nil; proto.Unmarshal wrapper (Reset, initialisation walk) modelled from protobuf-go v1.34.0",
         "design": "DESIGN.md §3 C03",
     },
     "C04": {
+        "facts": True,
+        "lean_files": ["C04", "C04Code"],
         "engines": [CODEC],
         "text": "Lean 4 theorems C04_size_eq_len / C04_size_eq_reference / C04_index_reaches_zero / C04_append for every schema, value, option combination and map iteration order, on the model of the size and marshal closures; tied to the real code on every run (Size vs len(Marshal) vs reference size, MarshalAppend with and without spare capacity and a canary).",
         "note": "partial: slice capacity is Go runtime behaviour, reached only by the correspondence run (prefixes with cap=len, cap>len)",
         "design": "DESIGN.md §3 C04",
     },
     "C05": {
+        "facts": True,
+        "lean_files": ["C05", "C05Code"],
         "engines": [CODEC],
         "text": "Lean 4 theorems C05_order_independent (no typing needed), C05_rep_independent, C05_equiv_same_bytes: deterministic bytes are a function of the message value only (any map iteration order, nil-vs-empty, entry storage order), at every depth. Tied by marshalling rebuilt-equal values repeatedly on the real code.",
         "note": "partial: that the Go runtime really permutes map iteration and that the nested call receives the flag is runtime behaviour, reached by repetition in the correspondence run",
@@ -150,8 +156,10 @@ REQUIRED = {
             "C19_getters_eq_get", "C19_getters_eq_get_nil", "C19_reset_is_empty"],
     "C06": ["C06_closure_no_panic", "C06_no_panic", "C06_fuel_irrelevant", "C06_depth_bounded", "C06_too_deep_rejected", "C06_post_usable",
             "C06_alloc_value_agrees", "C06_alloc_linear", "C06_alloc_linear_any_outcome"],
-    "C07": ["C07_reads_frame", "C07_read_history_frame"],
-    "C11": ["C11_reads_write_nothing", "C11_read_history", "C11_interleaving"],
+    "C07": ["C07_reads_frame", "C07_read_history_frame", "C07_extracted_input_flows_copy",
+            "C07_extracted_marshal_returns_own_buffer"],
+    "C11": ["C11_reads_write_nothing", "C11_read_history", "C11_interleaving",
+            "C11_extracted_read_paths_write_nothing", "C11_extracted_read_paths_share_no_state"],
     "C14": ["C14_unknown_step", "C14_known_never_unknown", "C14_reencode_unknown_last", "C14_discard"],
     "C08": ["C08_step_refines", "C08_step_state", "C08_step_preserves_wf", "C08_history_refines", "C08_oneof_at_most_one",
             "C08_set_member_replaces", "C08_clear_inactive_member_noop", "C08_range_exactly_populated_once",
@@ -159,9 +167,13 @@ REQUIRED = {
     "C09": ["C09_nil_reads", "C09_nil_reads_no_panic", "C09_nil_writes_panic", "C09_nil_codec", "C09_nil_refines_spec"],
     "C10": ["C10_client_parametric", "C10_client_parametric_run", "C10_client_parametric_pair"],
     "C02": ["C02_keyBytes_eq_tag", "C02_wireType_table", "C02_det_eq_reference"],
-    "C03": ["C03_strict_implies_reference", "C03_decode_eq_reference", "C03_decode_eq_reference_fresh"],
-    "C04": ["C04_keySize_eq", "C04_size_eq_len", "C04_size_eq_reference", "C04_index_reaches_zero", "C04_append"],
-    "C05": ["C05_order_independent", "C05_rep_independent", "C05_equiv_same_bytes"],
+    "C03": ["C03_strict_implies_reference", "C03_decode_eq_reference", "C03_decode_eq_reference_fresh",
+            "C03_concat_reference", "C03_concat_strict", "C03_concat_eq_merge", "C03_concat_eq_two_steps",
+            "C03_extracted_decoder_has_no_call_spanning_state"],
+    "C04": ["C04_keySize_eq", "C04_size_eq_len", "C04_size_eq_reference", "C04_index_reaches_zero", "C04_append",
+            "C04_extracted_size_keeps_no_cache"],
+    "C05": ["C05_order_independent", "C05_rep_independent", "C05_equiv_same_bytes",
+            "C05_extracted_marshal_reads_no_call_spanning_state"],
     "C15": ["C15_sov_eq_protowire_size", "C15_soz_eq", "C15_encodeVarint_writes_minimal_varint",
             "C15_skip_no_panic", "C15_skip_progress", "C15_skip_len"],
     "C16": ["C16_pack_url_value", "C16_pack_failure_leaves_dst", "C16_unpack_no_panic", "C16_roundtrip_types",
